@@ -21,6 +21,7 @@ ASSUME Part = 0 => PrintT(<<"UNIV", ToJson(USeq)>>)
 \* other candidates derived from s: a prefix, s with one byte replaced, s extended
 CandOf(d, x) == {SubSeq(x, 1, Len(x) - 1), x \o <<MinOf(d.alpha)>>}
                 \cup {[x EXCEPT ![k] = b] : k \in {j \in 1..Len(x) : j <= CandLen}, b \in d.alpha}
+                \cup {[x EXCEPT ![k] = x[k + 1], ![k + 1] = x[k]] : k \in {j \in 1..(Len(x) - 1) : j <= CandLen}}      \* two neighbours swapped
 ValueNames(fs) == {fs[i].name : i \in {j \in 1..Len(fs) : fs[j].k \in {"Int", "Data", "Bits"}}}
 
 Init == LET us == USeq IN
